@@ -209,7 +209,7 @@ pub fn cmd_explore(opt: &HashMap<String, String>) -> i32 {
     let clone_product = if want(14) { 1 } else { 0 };
     let exhaustive_pat_len = if thorough { 10 } else { 8 };
     let trap = want(19);
-    let state_opts = StateOpts { exhaustive_pat_len, owning, clone, clone_product, trap };
+    let state_opts = StateOpts { exhaustive_pat_len, owning, clone, clone_product, trap, borrow_patterns: true };
     let mut phases: Vec<Phase> = vec![];
     let mut novel: Vec<(usize, Vec<Op>, Vec<u8>)> = vec![];
     let roots = closure_roots(&hashers, &caps, u.limits[u.limits.len() - 2]);
@@ -256,6 +256,7 @@ pub fn cmd_explore(opt: &HashMap<String, String>) -> i32 {
             skips: skips.clone(),
             depth_cap: depth_caps.get(&0).copied(),
             heavy_depth_limit: None,
+            owning_by_shape: !thorough,
         };
         let mut result = ex.run(&eo);
         novel = std::mem::take(&mut result.novel);
@@ -294,6 +295,7 @@ pub fn cmd_explore(opt: &HashMap<String, String>) -> i32 {
             skips: skips.clone(),
             depth_cap: depth_caps.get(&1).copied(),
             heavy_depth_limit: None,
+            owning_by_shape: !thorough,
         };
         let result = ex.run(&eo);
         phases.push(Phase { name: format!("continuation after fault (depth {})", d_after), result, roots: roots2, alpha_len, nkeys, fault_props: fp, u: u.clone() });
@@ -308,7 +310,7 @@ pub fn cmd_explore(opt: &HashMap<String, String>) -> i32 {
         let alpha = alphabet(&u4);
         let alpha_len = alpha.len();
         let mut ex = Explorer::new(&ctx4, roots4.clone(), alpha);
-        let so = StateOpts { exhaustive_pat_len, owning: false, clone, clone_product: 0, trap };
+        let so = StateOpts { exhaustive_pat_len, owning: false, clone, clone_product: 0, trap, borrow_patterns: true };
         let eo = ExploreOpts {
             threads,
             max_depth,
@@ -322,6 +324,7 @@ pub fn cmd_explore(opt: &HashMap<String, String>) -> i32 {
             skips: skips.clone(),
             depth_cap: depth_caps.get(&2).copied(),
             heavy_depth_limit: None,
+            owning_by_shape: !thorough,
         };
         let result = ex.run(&eo);
         phases.push(Phase { name: "closure U4 (Spread, four value sizes, one size per key)".into(), result, roots: roots4, alpha_len, nkeys: 4, fault_props: 0, u: u4.clone() });
@@ -341,7 +344,7 @@ pub fn cmd_explore(opt: &HashMap<String, String>) -> i32 {
         let alpha: Vec<Op> = alphabet(&ug);
         let alpha_len = alpha.len();
         let mut ex = Explorer::new(&ctxg, rootsg.clone(), alpha);
-        let so = StateOpts { exhaustive_pat_len, owning: false, clone, clone_product: 0, trap: false };
+        let so = StateOpts { exhaustive_pat_len, owning: false, clone, clone_product: 0, trap: false, borrow_patterns: true };
         let eo = ExploreOpts {
             threads,
             max_depth,
@@ -355,6 +358,7 @@ pub fn cmd_explore(opt: &HashMap<String, String>) -> i32 {
             skips: skips.clone(),
             depth_cap: depth_caps.get(&3).copied(),
             heavy_depth_limit: None,
+            owning_by_shape: !thorough,
         };
         let result = ex.run(&eo);
         phases.push(Phase { name: "closure: two keys, value sizes {0, 1, usize::MAX/2}, limits up to usize::MAX".into(), result, roots: rootsg, alpha_len, nkeys: 2, fault_props: 0, u: ug.clone() });
@@ -418,6 +422,7 @@ pub fn cmd_explore(opt: &HashMap<String, String>) -> i32 {
                 clone,
                 clone_product: if clone_product > 0 && sd.len <= 30 { 1 } else { 0 },
                 trap,
+                borrow_patterns: true,
             };
             let falpha = sd.alpha.clone();
             let w16 = want(16) && sd.len <= 64;
@@ -456,6 +461,7 @@ pub fn cmd_explore(opt: &HashMap<String, String>) -> i32 {
             skips: skips.clone(),
             depth_cap: depth_caps.get(&(10 + seed_idx as u64)).copied(),
             heavy_depth_limit: Some(if thorough { 2 } else { 1 }),
+            owning_by_shape: false,
             };
             let alpha_len = sd.alpha.len();
             let mut ex = Explorer::new(&ctx_s, vec![sd.root.clone()], sd.alpha.clone());
@@ -478,7 +484,7 @@ pub fn cmd_explore(opt: &HashMap<String, String>) -> i32 {
             }
             let (lroots, lalpha) = ladder(&u, hk, n_max);
             let ctx_l = Ctx { u: &u, sel, growth_bound: None, fault_props: 0, extra_ids: vec![], known_rules: known_rules.clone() };
-            let so = StateOpts { exhaustive_pat_len: 6, owning, clone, clone_product: 0, trap };
+            let so = StateOpts { exhaustive_pat_len: 6, owning, clone, clone_product: 0, trap, borrow_patterns: true };
             let phase_no = 500 + li as u64;
             let eo = ExploreOpts {
                 threads,
@@ -493,6 +499,7 @@ pub fn cmd_explore(opt: &HashMap<String, String>) -> i32 {
                 skips: skips.clone(),
                 depth_cap: depth_caps.get(&phase_no).copied(),
                 heavy_depth_limit: Some(0),
+                owning_by_shape: false,
             };
             let alpha_len = lalpha.len();
             let mut ex = Explorer::new(&ctx_l, lroots.clone(), lalpha);
@@ -903,7 +910,7 @@ pub fn cmd_replay(opt: &HashMap<String, String>) -> i32 {
             }
         }
         (_, None) => {
-            let so = StateOpts { exhaustive_pat_len: 10, owning: true, clone: true, clone_product: 1, trap: true };
+            let so = StateOpts { exhaustive_pat_len: 10, owning: true, clone: true, clone_product: 1, trap: true, borrow_patterns: true };
             let r = check_state(&ctx, &cfg, &hist, None, &so, &mut st);
             if let Some(m) = r.machinery {
                 eprintln!("MACHINERY ERROR: {m}");
